@@ -60,7 +60,7 @@ def build_file(g, d, n=160):
     if SHUFFLE[0]:
         # a file whose rows are not in time order (segments merged in another order, rows sorted by another column): the predicate is per row
         perm = numpy.concatenate([numpy.arange(n // 2, n), numpy.arange(0, n // 2)])
-        sw = g.choice(n - 1, 10, replace=False)
+        sw = 2 * g.choice((n - 1) // 2, 10, replace=False)          # disjoint neighbour pairs
         perm[sw], perm[sw + 1] = perm[sw + 1].copy(), perm[sw].copy()
         with fits.open(path) as h:
             for ext in ('EVENTS', 'MONTE_CARLO'):
